@@ -115,6 +115,24 @@ def eval_single(i, scn):
         r1 = m.inverse_transform(sn, normalized=True)
         r0 = m.inverse_transform(s0)
         ck.m(same(r1, r0, rtol=1e-8, what="inverse") is None, "C03", "C03_NormalizedByNorms", f"{tag}: inverse_transform(normalized scores, normalized=True) != inverse_transform(scores)")
+        # how a selection of modes is presented is irrelevant: one mode by scalar label (0-d 'mode' coordinate) or by
+        # a one-element list, several modes in any order
+        k0 = modes[i % len(modes)]
+        for nzd in (False, True):
+            src = sn if nzd else s0
+            try:
+                with warnings.catch_warnings():
+                    warnings.simplefilter("ignore")
+                    a_ = m.inverse_transform(src.sel(mode=k0), normalized=nzd)
+                    b_ = m.inverse_transform(src.sel(mode=[k0]), normalized=nzd)
+                    c_ = m.inverse_transform(src.isel(mode=slice(None, None, -1)), normalized=nzd)
+                    d_ = m.inverse_transform(src, normalized=nzd)
+                why = same(a_.drop_vars("mode", errors="ignore"), b_.drop_vars("mode", errors="ignore"), rtol=1e-8, what="scalar vs list selection")
+                ck.m(why is None, "C03", "C03_ModeSelection", f"{tag}: inverse_transform(scores.sel(mode={k0}), normalized={nzd}) differs from the one-element list selection: {why}")
+                why = same(c_, d_, rtol=1e-8, what="reversed mode order")
+                ck.m(why is None, "C03", "C03_ModeSelection", f"{tag}: inverse_transform of the scores with modes in reversed order (normalized={nzd}) differs: {why}")
+            except Exception as e:  # noqa
+                ck.d(False, "C03", "C03_ModeSelection", f"{tag}: inverse_transform of a mode selection (normalized={nzd}) raised {type(e).__name__}: {str(e)[:120]}")
     return dict(found=ck.found, P=ck.P, D=ck.D, M=ck.M, count={"single": 1})
 
 
